@@ -854,10 +854,8 @@ fn binop_arith(op: &MOp, l: MV, r: MV, addr: u8) -> Result<MV, Stop> {
             // generic: signed; typed: by the type's signedness
             if ty == Ty::Gen || ty.signed() {
                 let (a, b) = (sext(l.bits, bits) as i128, sext(r.bits, bits) as i128);
-                let min = -(1i128 << (bits - 1));
-                if a == min && b == -1 {
-                    return Err(Stop::Unspecified("signed MIN / -1"));
-                }
+                // MIN / -1 wraps back to MIN (two's complement wrap-around at
+                // the operand width, like every other integer operation)
                 MV::int(ty, (a / b) as i64 as u64, addr)
             } else {
                 MV::int(ty, l.bits / r.bits, addr)
